@@ -6,9 +6,6 @@ From Coq Require Import Lia.
 Record mach := mk_mach { mA : Z; mF : Z; mC : Z; mDE : Z; mE : Z; mSP : Z; mPC : Z }.
 Definition view (cpu : CPU) : mach :=
   mk_mach (g_AF_Hi cpu) (g_AF_Lo cpu) (g_BC_Lo cpu) (regw (g_DE cpu)) (g_DE_Lo cpu) (g_SP cpu) (g_PC cpu).
-(* console output, newest first *)
-Fixpoint couts (tr : list event) : list (Z * Z) :=
-  match tr with [] => [] | EvOut p v :: t => (p, v) :: couts t | _ :: t => couts t end.
 Definition env_ok (cpu : CPU) : Prop := g_Memory cpu = UserMem /\ g_Interrupt cpu = None /\ g_IO cpu = true.
 Definition rel (cpu cpu' : CPU) (o : list (Z * Z)) (v : mach) : Prop :=
   env_ok cpu' /\ ram (g_W cpu') = ram (g_W cpu) /\ couts (trace (g_W cpu')) = o ++ couts (trace (g_W cpu)) /\ view cpu' = v.
